@@ -42,6 +42,22 @@ R1  species-axis agreement (T-AGREE): the sequence whose position supplies the
     dimension order - through chained subscripts and locals that hold one
     record (`cell = var[index]` … `cell[si, ti]`) - and a position is the
     position variable itself, not an expression of it (`si + 1`).
+    R1e every member of the axis gets its turn: a `for` loop of the writer or
+    the reader that positions members on an axis (the enumerations of R1 /
+    R1b, `S.index(x)` loops included) is never left early for a reason that
+    depends on the pass - no `break` of that loop and no `return` anywhere in
+    its body (nested loops and compound statements included); a pass may only
+    go on to the next member (`continue`, an `if` around the store) or raise.
+    Leaving drops every later member of the value (`if sp not in val: return`
+    where `continue` was meant).  A leave under a condition that mentions
+    nothing bound in the loop is a guard of the whole loop and not judged.
+    Floor: 2 loops.
+    Scopes of R1 / R1b / R1c / R1e / R6: the writer / reader, the methods its
+    dispatch table hands over to, and every resolved helper (method or
+    module-level function of any module) the NetCDF variable is handed to, in
+    turn; the helper's parameters that receive the variable and the record
+    index are found from the call, the axes of a row transfer in a helper
+    from the arms that hold its call.
     R1d (value flow) the species list handed to the writer / reader is the
     `.species` of the very file object that owns the variable: both
     arguments are resolved with Flow (hoisted, items()-iterated, passed
@@ -157,6 +173,27 @@ R9  writer domain within dimension domain: the species list that sizes and
     - leaves a written species without a slot.  Sliced / filtered loop sources
     and other early exits are undecided.  Floor: 2 collections (new store,
     associated file); positive control.
+R10 stored type = declared type, creation side.  (a) every `createVariable`
+    in `_create_nc_file` (and the helpers it calls) whose name is the key of
+    an iteration over a field set's fields: each value its type argument can
+    have (Flow; conditional expressions split; a helper that picks the type
+    opened) is `<that field>.field_type` or the entry kept under `<that
+    field>.field_type` in a table (`T[K]`, `T.get(K)`); a fixed type, a
+    look-up under a fixed type or another field's type is the violation.
+    (b) every `createVLType` reachable from there: the key it is registered
+    under (`T[K] = …`, dict display / comprehension, setdefault) and the
+    scalar type it is made of are the same value (np.dtype() peeled), or the
+    base is `TABLE[K]` / `TABLE.get(K)` of a module-level dict display that
+    nothing stores into, and then every row of TABLE maps a numpy scalar
+    type to the type code numpy and netCDF4 read as that same type ('i8',
+    '<f4', 'int64', np.int64; platform-dependent names undecided) - a row
+    such as `np.int64: 'i4'` narrows every per-point int64 field.  Literal
+    entries of a type table (`{str: str}`) map a type to itself.  Floors: 1
+    field variable, 1 createVLType.
+Before the rules run, parameter aliases are removed from the functions of
+store.py / field_sets.py (unalias_parameters: `var, index = cell_var,
+cell_index` with neither side rebound - what is left of `var, index =
+cell.var, cell.index` once the engine has dissolved the parameter object).
 """
 
 from __future__ import annotations
@@ -1052,14 +1089,45 @@ def dimension_layouts(ctx, prog, m, cd):
     return out
 
 
-def scopes_of(fi, arms):
-    """the function itself and the methods its dispatch table hands over to (bodies that are not inside fi)"""
+def scopes_of(fi, arms, prog=None):
+    """the function itself, the methods its dispatch table hands over to (bodies that are not inside fi) and - with a
+    program - the resolved helpers (methods, module-level functions of any module) that it hands its NetCDF variable
+    to, in turn: what such a helper does with the variable is part of what the writer / reader does.  The helper's
+    parameters that receive the variable / the record index are noted on its node (variable_params), and the call
+    statement it is reached through (_axes_at)."""
     out = [fi]
     if arms and fi.qualname in arms:
         for a in arms[fi.qualname][2].values():
             for h in a.hosts.values():
                 if h is not None and not any(h == o for o in out) and not h.qualname.startswith(fi.qualname + '.<locals>.'):
                     out.append(h)
+    if prog is None:
+        return out
+    i = 0
+    while i < len(out) and len(out) < 12:
+        f = out[i]
+        i += 1
+        vn, inn = variable_params(f)
+        for c in calls_in(f.node):
+            if not any(isinstance(a_, ast.Name) and a_.id in vn for a_ in list(c.args) + [k.value for k in c.keywords]):
+                continue
+            callee = resolve_call(prog, f, c)
+            if callee is None or callee.qualname.startswith(f.qualname + '.<locals>.') or callee.node is f.node:
+                continue
+            roles = getattr(callee.node, '_c03_roles', None) or (set(), set())
+            for p_ in callee.params:
+                a_ = _arg_for_param(callee, c, p_)
+                if isinstance(a_, ast.Name) and a_.id in vn:
+                    roles[0].add(p_)
+                elif isinstance(a_, ast.Name) and a_.id in inn:
+                    roles[1].add(p_)
+            callee.node._c03_roles = roles
+            via = getattr(callee.node, '_c03_via', None) or []
+            if not any(x is stmt_of(c) for x in via):
+                via.append(stmt_of(c))
+            callee.node._c03_via = via
+            if not any(callee == o for o in out):
+                out.append(callee)
     return out
 
 
@@ -1080,8 +1148,8 @@ def rule_axis(ctx, m, arms=None):
         return None
 
     sites = {'species': [], 'thrust_mode': []}
-    top_of = {f_.qualname: top for top in (wr, rd) for f_ in scopes_of(top, arms)}
-    for role, fi in [(r_, f_) for r_, top in (('writer', wr), ('reader', rd)) for f_ in scopes_of(top, arms)]:
+    top_of = {f_.qualname: top for top in (wr, rd) for f_ in scopes_of(top, arms, prog)}
+    for role, fi in [(r_, f_) for r_, top in (('writer', wr), ('reader', rd)) for f_ in scopes_of(top, arms, prog)]:
         for ivar, evar, src, node in _enumerates(fi.node):
             cl = classify_axis_source(prog, fi, src)
             ax = axis_of(cl)
@@ -1122,8 +1190,34 @@ def rule_axis(ctx, m, arms=None):
                     f'from [{cl}]: values land in / come from the wrong slot unless the two orders coincide'),
                    line=node.lineno)
 
+    # R1e every member of the axis gets its turn
+    n_loops = 0
+    seen_loops = set()
+    for ax in ('species', 'thrust_mode'):
+        for role, fi, cl, node, ivar in sites[ax]:
+            lp = _axis_loop(fi.node, node)
+            if lp is None or id(lp) in seen_loops:
+                continue
+            seen_loops.add(id(lp))
+            n_loops += 1
+            early = early_leaves(lp)
+            what = 'written' if role == 'writer' else 'read back'
+            if early:
+                x, conds = early[0]
+                at_line = int(-(-x.lineno // 1))
+                how = 'return' if isinstance(x, ast.Return) else 'break'
+                under = ' and '.join(f'`{norm(t) if pol else "not (" + norm(t) + ")"}`' for t, pol in conds[:2])
+                why = (f'the {role} leaves the loop over the {ax.replace("_", "-")} axis by `{how}` at line {at_line}'
+                       + (f' when {under}' if under else ' at the end of the first pass') +
+                       f': that ends the loop, it does not go on to the next member (`continue`), so every member after '
+                       f'it is never {what} - values the field holds for them are lost')
+            ctx.ob('C03-R1e', fi, f'{role} loop over the {ax} axis handles every member', not early,
+                   'no `break` / `return` inside the loop: a pass can only go on to the next member or raise' if not early
+                   else why, line=(early[0][0].lineno if early else lp.lineno))
+    ctx.floor('C03-R1e', n_loops, 2, 'loops over an axis in writer+reader')
+
     # R1c subscript order
-    for role, fi in [(r_, f_) for r_, top in (('writer', wr), ('reader', rd)) for f_ in scopes_of(top, arms)]:
+    for role, fi in[(r_, f_) for r_, top in (('writer', wr), ('reader', rd)) for f_ in scopes_of(top, arms, prog)]:
         sp_vars = {iv for r, f, cl, n, iv in sites['species'] if f is fi} - {':'}
         tm_vars = {iv for r, f, cl, n, iv in sites['thrust_mode'] if f is fi} - {':'}
         vnames, inames = variable_params(fi)
@@ -1163,11 +1257,74 @@ def rule_axis(ctx, m, arms=None):
                         'index variables are not in the order of the variable\'s dimensions'), line=n.lineno)
 
 
+def _axis_loop(fn, node):
+    """the `for` statement that walks the members of the sequence positioned at `node` (an enumeration found by
+    _enumerates: the iterable of the loop itself, or `S.index(x)` in the body of the loop that binds x); None for a
+    comprehension, which cannot be left early"""
+    for lp in ast.walk(fn):
+        if isinstance(lp, (ast.For, ast.AsyncFor)) and (lp.iter is node or same_site(node, lp.iter)):
+            return lp
+    if isinstance(node, ast.Call) and isinstance(node.func, ast.Name) and node.func.id == 'enumerate' and node.args:
+        # the stand-in made for `S.index(x)`: located at the call, x bound by an enclosing loop
+        real = next((c for c in ast.walk(fn) if isinstance(c, ast.Call) and isinstance(c.func, ast.Attribute)
+                     and c.func.attr == 'index' and same_site(node, c) and len(c.args) == 1 and isinstance(c.args[0], ast.Name)), None)
+        if real is not None:
+            for a in ancestors(real):
+                if isinstance(a, (ast.FunctionDef, ast.AsyncFunctionDef, ast.Lambda)):
+                    break
+                if isinstance(a, (ast.For, ast.AsyncFor)) and real.args[0].id in names_of_target(a.target) \
+                        and any(is_within(real, s) for s in a.body):
+                    return a
+    return None
+
+
+def early_leaves(lp):
+    """The ways out of loop `lp` that end it for all later items although the pass is about one item: `break`
+    (of this loop) and `return` anywhere in its body (nested loops and other compound statements included, nested
+    functions not), -> [(node, [(test, polarity)] it is under, inside the loop)], those first whose conditions
+    depend on the item.  A leave under conditions that mention nothing bound inside the loop happens in the first
+    pass or never (a guard written inside the loop): not reported here.  `raise` aborts the operation and is not
+    a way of leaving."""
+    bound = set()
+    for x in ast.walk(lp):
+        if isinstance(x, ast.Name) and isinstance(x.ctx, ast.Store):
+            bound.add(x.id)
+    out = []
+
+    def go(stmts, own):
+        for s in stmts:
+            if isinstance(s, (ast.FunctionDef, ast.AsyncFunctionDef, ast.ClassDef)):
+                continue
+            if isinstance(s, ast.Return) or (isinstance(s, ast.Break) and own):
+                out.append(s)
+                continue
+            inner_loop = isinstance(s, (ast.For, ast.AsyncFor, ast.While))
+            for f in ('body', 'orelse', 'finalbody'):
+                blk = getattr(s, f, None)
+                if isinstance(blk, list) and blk and isinstance(blk[0], ast.stmt):
+                    go(blk, own and not (inner_loop and f == 'body'))
+            for h in getattr(s, 'handlers', []) or []:
+                go(h.body, own)
+            for c in getattr(s, 'cases', []) or []:
+                go(c.body, own)
+    go(lp.body, True)
+    res = []
+    for x in out:
+        conds = [(t, pol) for t, pol, _ in guards_of(x, stop=lp)]
+        # earlier guard clauses of the same blocks do not matter: they only make the leave rarer
+        dep = any(isinstance(n, ast.Name) and n.id in bound for t, _ in conds for n in ast.walk(t))
+        if conds and not dep:
+            continue
+        res.append((x, conds, dep))
+    res.sort(key=lambda r: (not r[2], r[0].lineno))
+    return [(x, conds) for x, conds, _ in res]
+
+
 def _full_slice(x) -> bool:
     return isinstance(x, ast.Slice) and x.lower is None and x.upper is None and x.step is None
 
 
-def _axes_at(stmt, top, arms):
+def _axes_at(stmt, top, arms, depth=0):
     """the axes (after the record axis) of the variable where `stmt` runs: ['species', 'thrust_mode'] filtered by the
     dimension combinations whose arm holds the statement; None when the arms disagree or none holds it"""
     if not arms or top.qualname not in arms:
@@ -1178,6 +1335,14 @@ def _axes_at(stmt, top, arms):
         if any(x is stmt for x in arm.walk()):
             combo = dict(zip(dims, row))
             found.add(tuple(a for a, d in (('species', 'SPECIES'), ('thrust_mode', 'THRUST_MODE')) if combo.get(d)))
+    if not found and depth < 3:
+        # a statement of a helper the variable is handed to: the arms that hold the call(s) of the helper
+        host = next((a for a in ancestors(stmt) if isinstance(a, (ast.FunctionDef, ast.AsyncFunctionDef))), None)
+        via = getattr(host, '_c03_via', None) if host is not None else None
+        if via:
+            rs = [_axes_at(c_, top, arms, depth + 1) for c_ in via]
+            if all(r is not None for r in rs) and len({tuple(r) for r in rs}) == 1:
+                return rs[0]
     return list(found.pop()) if len(found) == 1 else None
 
 
@@ -2193,7 +2358,9 @@ def _arm_tests(fl, arm):
                                 if loops:
                                     keep, leave, cx = loop_conditions(stx, loops[-1], (ast.Raise,))
                                     inner_loops = loops[:-1]
-                                    for e_, pol in keep:
+                                    # a guard that ends the loop decides about the entry of its pass as well (that it
+                                    # also drops the later ones is R1e's business)
+                                    for e_, pol in keep + [(t_, p_) for t_, p_, _ in leave]:
                                         own = next((a_ for a_ in ancestors(e_) if isinstance(a_, ast.stmt)), None)
                                         lvl = 'entry' if not any(own is not None and is_within(own, il) for il in inner_loops) else 'inner'
                                         entry_conds.append((e_, at_of(e_), lvl))
@@ -3200,6 +3367,11 @@ def variable_params(fi):
         # a closure of the writer / reader sees its variable and index
         vn.add('var')
         inn.add('index')
+    # a helper the writer / reader hands its variable to (scopes_of): the parameters that receive them
+    traced = getattr(fi.node, '_c03_roles', None)
+    if traced:
+        vn |= traced[0]
+        inn |= traced[1]
     return vn, inn
 
 
@@ -3210,7 +3382,7 @@ def rule_index_use(ctx, m, arms=None):
         bad = []
         n_sub = 0
         fi = top
-        for sc in scopes_of(top, arms):
+        for sc in scopes_of(top, arms, ctx.prog):
             vnames, inames = variable_params(sc)
             for n in ast.walk(sc.node):
                 if isinstance(n, ast.Subscript) and isinstance(n.value, ast.Name) and n.value.id in vnames:
@@ -4591,8 +4763,355 @@ def rule_species_domain(ctx, m):
                 'embedded collection that skips optional fields is recognised as restricted')
 
 
+# --------------------------------------------------------------- R10 -----
+_NP_TYPES = {
+    'float64': 'f8', 'double': 'f8', 'float32': 'f4', 'single': 'f4', 'float16': 'f2', 'half': 'f2',
+    'int8': 'i1', 'byte': 'i1', 'int16': 'i2', 'short': 'i2', 'int32': 'i4', 'intc': 'i4', 'int64': 'i8',
+    'longlong': 'i8', 'uint8': 'u1', 'ubyte': 'u1', 'uint16': 'u2', 'ushort': 'u2', 'uint32': 'u4', 'uintc': 'u4',
+    'uint64': 'u8', 'ulonglong': 'u8',
+}
+_CHAR_CODES = {'d': 'f8', 'f': 'f4', 'e': 'f2', 'b': 'i1', 'h': 'i2', 'i': 'i4', 'q': 'i8', 'B': 'u1', 'H': 'u2',
+               'I': 'u4', 'Q': 'u8'}
+_CODE_NAMES = {'f8': 'float64', 'f4': 'float32', 'f2': 'float16', 'i1': 'int8', 'i2': 'int16', 'i4': 'int32',
+               'i8': 'int64', 'u1': 'uint8', 'u2': 'uint16', 'u4': 'uint32', 'u8': 'uint64'}
+
+
+def scalar_type_code(e):
+    """'f8' / 'i4' / 'u2' / 'str' ... for an expression that names a scalar data type: a numpy scalar type
+    (`np.int64`, `numpy.float32`, a bare imported name), `str`, `np.dtype(<such>)`, or a type string that numpy and
+    netCDF4 read alike ('i8', '<f4', 'int64', 'd'); None when it is not such a constant (platform-dependent names
+    such as `np.int_` / 'l' included: not decided)"""
+    import re
+    if isinstance(e, ast.Call) and call_name(e) in ('np.dtype', 'numpy.dtype', 'dtype') and len(e.args) == 1 and not e.keywords:
+        return scalar_type_code(e.args[0])
+    if isinstance(e, ast.Attribute) and e.attr in ('type', 'str', 'name') and isinstance(e.value, ast.Call) \
+            and call_name(e.value) in ('np.dtype', 'numpy.dtype', 'dtype'):
+        return scalar_type_code(e.value)
+    if isinstance(e, ast.Attribute) and isinstance(e.value, ast.Name) and e.value.id in ('np', 'numpy'):
+        return _NP_TYPES.get(e.attr)
+    if isinstance(e, ast.Name):
+        return 'str' if e.id == 'str' else _NP_TYPES.get(e.id)
+    if isinstance(e, ast.Constant) and isinstance(e.value, str):
+        v = e.value
+        m_ = re.fullmatch(r'[<>=|]?([fiu])([1248])', v)
+        if m_:
+            return m_.group(1) + m_.group(2)
+        if v in _NP_TYPES:
+            return _NP_TYPES[v]
+        if v in ('str', 'S1', 'U'):
+            return None
+        return _CHAR_CODES.get(v)
+    return None
+
+
+def _split_choices(e):
+    """the values a conditional expression / `a or b` can have"""
+    if isinstance(e, ast.IfExp):
+        return _split_choices(e.body) + _split_choices(e.orelse)
+    if isinstance(e, ast.BoolOp) and isinstance(e.op, ast.Or):
+        return [y for v in e.values for y in _split_choices(v)]
+    return [e]
+
+
+def _lookup(e):
+    """(table, key) for `T[K]`, `T.get(K)`, `T.get(K, None)`, `T.__getitem__(K)`"""
+    if isinstance(e, ast.Subscript) and not isinstance(e.slice, (ast.Slice, ast.Tuple)):
+        return e.value, e.slice
+    if isinstance(e, ast.Call) and isinstance(e.func, ast.Attribute) and e.func.attr in ('get', '__getitem__') and e.args \
+            and not e.keywords and (len(e.args) == 1 or (len(e.args) == 2 and isinstance(e.args[1], ast.Constant)
+                                                         and e.args[1].value is None)):
+        return e.func.value, e.args[0]
+    return None
+
+
+def _const_table(prog, fi, e):
+    """(module, name, Dict node) when e names a module-level dict display (of this module, imported by name, or
+    `module.NAME`) that nothing in the program stores into; None otherwise"""
+    r = None
+    if isinstance(e, ast.Name):
+        if e.id in fi.params or e.id in {x.id for x in ast.walk(fi.node)
+                                         if isinstance(x, ast.Name) and isinstance(x.ctx, ast.Store)}:
+            return None         # a local of the function, not the module's table
+        r = prog.resolve_name(fi.module, e.id)
+    elif isinstance(e, ast.Attribute):
+        d = dotted_name(e)
+        head = d.split('.')[0] if d else None
+        if head and head in fi.module.imports:
+            r = prog.resolve_dotted(fi.module.imports[head] + d[len(head):])
+    if not (isinstance(r, tuple) and r and r[0] == 'const'):
+        return None
+    _, mod, name = r
+    tbl = mod.constants.get(name)
+    if not isinstance(tbl, ast.Dict) or any(k is None for k in tbl.keys):
+        return None
+    nbind = sum(1 for s_ in ast.walk(mod.tree) if isinstance(s_, ast.Name) and s_.id == name and isinstance(s_.ctx, (ast.Store, ast.Del)))
+    if nbind != 1:
+        return None
+    for mm in prog.modules.values():
+        for x in ast.walk(mm.tree):
+            b = None
+            if isinstance(x, ast.Subscript) and isinstance(x.ctx, (ast.Store, ast.Del)):
+                b = x.value
+            elif isinstance(x, ast.Call) and isinstance(x.func, ast.Attribute) and x.func.attr in (
+                    'update', 'pop', 'popitem', 'setdefault', 'clear', '__setitem__', '__delitem__'):
+                b = x.func.value
+            elif isinstance(x, ast.AugAssign):
+                b = x.target
+            if b is not None and (dotted_name(b) or '').split('.')[-1] == name:
+                return None
+    return mod, name, tbl
+
+
+def rule_types(ctx, m):
+    """R10 - the NetCDF type of a field's variable is the field's own data type (creation side)."""
+    prog = ctx.prog
+    cn = m.func('TrajectoryStore._create_nc_file')
+    fl = Flow(prog, cn)
+
+    def closure(f, depth):
+        out, seen = [], set()
+
+        def go(g, d):
+            if id(g.node) in seen or d > depth:
+                return
+            seen.add(id(g.node))
+            out.append(g)
+            for c in calls_in(g.node):
+                cal = resolve_call(prog, g, c)
+                if cal is not None and isinstance(cal.node, (ast.FunctionDef, ast.AsyncFunctionDef)) \
+                        and cal.file.startswith(('src/AEIC/storage/', 'src/AEIC/trajectories/')):
+                    go(cal, d + 1)
+        go(f, 0)
+        return out
+    scope = closure(cn, 2)
+
+    # (a) every variable created for a field: its type argument
+    n_var = 0
+    for f in scope:
+        ffl = fl if f is cn else Flow(prog, f)
+        for c in calls_in(f.node):
+            if not (isinstance(c.func, ast.Attribute) and c.func.attr == 'createVariable' and c.args):
+                continue
+            st = stmt_of(c)
+            name_alts = ffl.alts(c.args[0], st)
+            keys = [a for a in name_alts if isinstance(a, ast.Name) and '@' in a.id]
+            lp = _loop_of_key(f.node, keys[0]) if len(keys) == len(name_alts) == 1 else None
+            if lp is None or map_iteration(lp.target, lp.iter) is None:
+                continue            # a coordinate / index variable with a fixed name: not a field
+            targ = c.args[1] if len(c.args) > 1 else kwarg(c, 'datatype')
+            if targ is None:
+                ctx.undecided('C03-R10', f, norm(c)[:60], 'no data type argument')
+            n_var += 1
+            key = keys[0]
+            bad = None
+            work = [(y, 0) for a in ffl.alts(targ, st) for y in _split_choices(a)]
+            while work:
+                alt, depth = work.pop(0)
+                if isinstance(alt, ast.Constant) and alt.value is None:
+                    continue
+                own = _own_type_of(alt, key)
+                if own:
+                    continue
+                lk = _lookup(alt)
+                if lk is not None and _own_type_of(lk[1], key):
+                    continue
+                if scalar_type_code(alt) is not None:
+                    bad = bad or (f'`{norm(alt)}`', 'a fixed type')
+                elif lk is not None and scalar_type_code(lk[1]) is not None:
+                    bad = bad or (f'the variable-length type kept under `{norm(lk[1])}`', 'a fixed type')
+                elif lk is not None and any(isinstance(x, ast.Attribute) and x.attr == 'field_type' for x in ast.walk(lk[1])):
+                    bad = bad or (f'the variable-length type kept under `{untag(norm(lk[1]))[:50]}`', 'the type of another field')
+                elif isinstance(alt, ast.Attribute) and alt.attr == 'field_type':
+                    bad = bad or (f'`{untag(norm(alt))[:60]}`', 'the type of another field')
+                else:
+                    # a helper that picks the type: what it returns, in the caller's terms
+                    ex = ffl.expand(alt) if depth < 2 and isinstance(alt, ast.Call) else None
+                    if ex:
+                        work += [(y, depth + 1) for a in ex for y in _split_choices(a)]
+                        continue
+                    ctx.undecided('C03-R10', f, untag(norm(alt))[:70], 'cannot tell which data type the variable of a field '
+                                  'is created with')
+            ctx.ob('C03-R10', f, 'variable of a field is created with the field\'s own data type', bad is None,
+                   '`<field>.field_type`, or the variable-length type looked up under it' if bad is None else
+                   f'the variable of field `{untag(norm(key))}` is created with {bad[0]} - {bad[1]}, not the data type the '
+                   'field declares: its values are converted to that type on write and read back changed (another type; '
+                   'out-of-range values wrapped, precision lost)', line=c.lineno)
+    ctx.floor('C03-R10/variables', n_var, 1, 'createVariable calls for the fields of a field set')
+
+    # (b) every variable-length type: registered under the scalar type it is made of
+    n_vl = 0
+    for f in scope:
+        ffl = fl if f is cn else Flow(prog, f)
+        for c in calls_in(f.node):
+            if not (isinstance(c.func, ast.Attribute) and c.func.attr == 'createVLType'):
+                continue
+            base = c.args[0] if c.args else kwarg(c, 'datatype')
+            st = stmt_of(c)
+            par = getattr(c, '_parent', None)
+            keyx = None
+            if isinstance(par, ast.Assign) and par.value is c and len(par.targets) == 1 and \
+                    isinstance(par.targets[0], ast.Subscript):
+                keyx = par.targets[0].slice
+            elif isinstance(par, ast.Dict):
+                keyx = next((k_ for k_, v_ in zip(par.keys, par.values) if v_ is c), None)
+            elif isinstance(par, ast.DictComp) and par.value is c:
+                keyx = par.key
+            elif isinstance(par, ast.Call) and isinstance(par.func, ast.Attribute) and par.func.attr == 'setdefault' \
+                    and len(par.args) == 2 and par.args[1] is c:
+                keyx = par.args[0]
+            if base is None or keyx is None:
+                ctx.undecided('C03-R10', f, norm(c)[:60], 'cannot tell under which scalar type the variable-length type is kept')
+            n_vl += 1
+            bad = None
+            line = c.lineno
+            where = f
+            kalts = [untag(norm(a)) for a in ffl.alts(keyx, st)]
+            for alt in [y for a in ffl.alts(base, st) for y in _split_choices(a)]:
+                b = alt
+                while isinstance(b, ast.Call) and call_name(b) in ('np.dtype', 'numpy.dtype') and len(b.args) == 1 and not b.keywords:
+                    b = b.args[0]
+                if untag(norm(b)) in kalts:
+                    continue
+                lk = _lookup(b)
+                tb = _const_table(prog, f, lk[0]) if lk is not None and untag(norm(lk[1])) in kalts else None
+                if tb is not None:
+                    mod, tname, tbl = tb
+                    prog.consulted.add(mod.relpath)
+                    for k_, v_ in zip(tbl.keys, tbl.values):
+                        kc, vc = scalar_type_code(k_), scalar_type_code(v_)
+                        if kc is None or vc is None:
+                            ctx.undecided('C03-R10', (mod.relpath, tname), f'{norm(k_)}: {norm(v_)}',
+                                          'row of the type table not understood')
+                        if kc != vc and bad is None:
+                            bad = (f'row `{norm(k_)}: {norm(v_)}` of `{tname}`: the variable-length type registered for '
+                                   f'per-point {norm(k_)} fields is made of {_CODE_NAMES.get(vc, vc)} elements, not '
+                                   f'{_CODE_NAMES.get(kc, kc)}: the values of such fields are converted to '
+                                   f'{_CODE_NAMES.get(vc, vc)} on write and read back changed (out-of-range values wrapped / '
+                                   'precision lost), and the file no longer matches the field definition')
+                            line, where = v_.lineno, (mod.relpath, tname)
+                    continue
+                bc = scalar_type_code(b)
+                if bc is not None:
+                    kcs = {scalar_type_code(a) for a in ffl.alts(keyx, st)}
+                    if kcs == {bc}:
+                        continue
+                    bad = bad or (f'the variable-length type kept under `{kalts[0]}` is made of `{untag(norm(b))}` elements '
+                                  'whatever the field\'s type: per-point values of other types are converted on write')
+                    continue
+                if any(isinstance(x, ast.Attribute) and x.attr == 'field_type' for x in ast.walk(b)) and lk is None:
+                    bad = bad or (f'the variable-length type kept under `{kalts[0]}` is made of `{untag(norm(b))}`, the type of '
+                                  'another field')
+                    continue
+                ctx.undecided('C03-R10', f, untag(norm(b))[:70], 'cannot tell which scalar type the variable-length type is made of')
+            ctx.ob('C03-R10', where, 'variable-length type is made of the scalar type it is registered under', bad is None,
+                   'base type = key' if bad is None else bad, line=line)
+    ctx.floor('C03-R10/vlen', n_vl, 1, 'createVLType calls reachable from _create_nc_file')
+    # entries put into the table without a call (`{str: str}`): type for type
+    for f in scope:
+        for d in ast.walk(f.node):
+            if isinstance(d, ast.Dict) and d.keys and all(k is not None and scalar_type_code(k) is not None for k in d.keys) \
+                    and all(scalar_type_code(v) is not None or isinstance(v, ast.Call) for v in d.values):
+                wrong = [(k, v) for k, v in zip(d.keys, d.values)
+                         if not isinstance(v, ast.Call) and scalar_type_code(k) != scalar_type_code(v)]
+                ctx.ob('C03-R10', f, f'type table entries `{norm(d)[:40]}` map a type to itself', not wrong,
+                       'key = value' if not wrong else f'`{norm(wrong[0][0])}` is stored as `{norm(wrong[0][1])}`',
+                       line=d.lineno, nontrivial=False)
+
+
+def _own_type_of(e, key) -> bool:
+    """e is `<M[key]>.field_type` (possibly `np.dtype(…)` of it): the declared type of the very field whose name is
+    the loop key `key`"""
+    while isinstance(e, ast.Call) and call_name(e) in ('np.dtype', 'numpy.dtype') and len(e.args) == 1 and not e.keywords:
+        e = e.args[0]
+    if not (isinstance(e, ast.Attribute) and e.attr == 'field_type'):
+        return False
+    it = peel_item(e.value)
+    return it is not None and norm(it[1]) == norm(key)
+
+
+# ------------------------------------------------- parameter aliases -----
+def unalias_parameters(prog, fi) -> list:
+    """`L = P` / `L1, L2 = P1, P2` at the top level of a function body, with P a parameter that is bound nowhere else
+    in the function and L a name that is bound by this statement only (not a parameter, not global / nonlocal, not
+    bound in a nested function): L and P name one object wherever both exist, so the statement says nothing but "P
+    is called L from here on" (what is left of `var, index = cell.var, cell.index` once the parameter object is
+    dissolved).  The parameter takes the name the body uses - L - and the assignment goes, unless a call somewhere
+    passes P by keyword (then L is replaced by P).  Sound by construction: neither name is rebound, every use of L
+    lies after the statement (a use before it would be an UnboundLocalError).  -> [(L, P)] for what was done."""
+    fn = fi.node
+    params = fi.params
+    done = []
+    banned = set()
+    for x in ast.walk(fn):
+        if isinstance(x, (ast.Global, ast.Nonlocal)):
+            banned |= set(x.names)
+    stores = {}
+    for x in ast.walk(fn):
+        if isinstance(x, ast.Name) and isinstance(x.ctx, (ast.Store, ast.Del)):
+            stores.setdefault(x.id, []).append(x)
+        elif isinstance(x, ast.arg) and x is not fn and not any(x is a for a in _own_args(fn)):
+            stores.setdefault(x.arg, []).append(x)
+        elif isinstance(x, (ast.FunctionDef, ast.AsyncFunctionDef, ast.ClassDef)) and x is not fn:
+            stores.setdefault(x.name, []).append(x)
+        elif isinstance(x, (ast.MatchAs, ast.MatchStar)) and x.name:
+            stores.setdefault(x.name, []).append(x)
+        elif isinstance(x, ast.MatchMapping) and x.rest:
+            stores.setdefault(x.rest, []).append(x)
+        elif isinstance(x, ast.ExceptHandler) and x.name:
+            stores.setdefault(x.name, []).append(x)
+        elif isinstance(x, (ast.Import, ast.ImportFrom)):
+            for a in x.names:
+                stores.setdefault((a.asname or a.name).split('.')[0], []).append(x)
+    for s in list(fn.body):
+        if not (isinstance(s, ast.Assign) and len(s.targets) == 1) and \
+                not (isinstance(s, ast.AnnAssign) and s.value is not None):
+            continue
+        t, v = (s.targets[0], s.value) if isinstance(s, ast.Assign) else (s.target, s.value)
+        if isinstance(t, ast.Name) and isinstance(v, ast.Name):
+            pairs = [(t, v)]
+        elif isinstance(t, (ast.Tuple, ast.List)) and isinstance(v, (ast.Tuple, ast.List)) and len(t.elts) == len(v.elts) \
+                and all(isinstance(a, ast.Name) for a in t.elts) and all(isinstance(b, ast.Name) for b in v.elts):
+            pairs = list(zip(t.elts, v.elts))
+        else:
+            continue
+        lefts, rights = [a.id for a, _ in pairs], [b.id for _, b in pairs]
+        if len(set(lefts)) != len(lefts) or len(set(rights)) != len(rights) or set(lefts) & set(rights):
+            continue
+        ok = all(b in params and b not in stores and b not in banned and b not in ('self', 'cls') and
+                 a not in params and a not in banned and len(stores.get(a, [])) == 1 and stores[a][0] is ta
+                 for (ta, _), a, b in zip(pairs, lefts, rights))
+        if not ok:
+            continue
+        by_kw = {k.arg for f in prog.all_functions(src_only=False) for c in ast.walk(f.node) if isinstance(c, ast.Call)
+                 for k in c.keywords if k.arg in rights}
+        ren = {}
+        for a, b in zip(lefts, rights):
+            ren.update({a: b} if b in by_kw else {b: a})
+        for x in ast.walk(fn):
+            if isinstance(x, ast.Name) and x.id in ren and not (x is s or any(x is q for q in ast.walk(s))):
+                x.id = ren[x.id]
+        for a in _own_args(fn):
+            if a.arg in ren:
+                a.arg = ren[a.arg]
+        fn.body.remove(s)
+        params = fi.params
+        for a, b in zip(lefts, rights):
+            stores.pop(a, None)
+            done.append((a, b))
+    return done
+
+
+def _own_args(fn):
+    a = fn.args
+    return a.posonlyargs + a.args + a.kwonlyargs + [x for x in (a.vararg, a.kwarg) if x is not None]
+
+
 def run(ctx):
     m = ctx.prog.module(STORE)
+    for mod in (m, ctx.prog.module(FS)):
+        for f in list(mod.functions.values()):
+            if '<locals>' not in f.qualname:
+                unalias_parameters(ctx.prog, f)
     rule_cast(ctx)
     legal = legal_combinations(ctx, ctx.prog)
     ctx.stats['legal_dimension_combinations'] = [
@@ -4608,6 +5127,7 @@ def run(ctx):
     rule_hash_gate(ctx, m)
     rule_index_use(ctx, m, arms)
     rule_species_domain(ctx, m)
+    rule_types(ctx, m)
     ctx.assumptions += [
         'netCDF4 returns the fill value for cells never written and an empty array for unwritten VL cells',
         'values equal to the fill value are not legitimate data',
